@@ -100,12 +100,16 @@ func (d *Document) BlockStringValueContentBytes(ref int) []byte {
 	}
 
 	// find first non-whitespace-only line
-	firstLine := 0
+	firstLine := -1
 	for i, line := range lines {
 		if leadingWhitespaceCount(line) != len(line) {
 			firstLine = i
 			break
 		}
+	}
+	if firstLine == -1 {
+		// only blank lines: all of them are removed and the value is empty
+		return []byte{}
 	}
 
 	// find last non-whitespace-only line
